@@ -118,8 +118,8 @@ Section KZG10.
     let rhs := pf_w pf * (vk_beta_h vk - vk_h vk * z) in
     Ok (feqb lhs rhs).
 
-  (* KZG10::batch_check: the loop zips four slices (stops at the shortest) and
-     draws one 128-bit randomizer per iteration from the verifier's RNG. *)
+  (* KZG10::batch_check: refuses slices of different lengths, then loops over the
+     four slices drawing one 128-bit randomizer per iteration from the verifier's RNG. *)
   Record bacc := mkBacc { b_total_c : F; b_total_w : F; b_gm : F; b_ggm : F; b_rand : F; b_draws : nat }.
 
   Fixpoint batch_loop (cs zs vs : list F) (pfs : list Proof) (tape : list F) (a : bacc) : res bacc :=
@@ -146,6 +146,9 @@ Section KZG10.
 
   Definition batch_check (vk : VKey) (cs zs vs : list F) (pfs : list Proof) (tape : list F)
     : res (bool * nat) :=
+    if negb (Nat.eqb (length zs) (length cs) && Nat.eqb (length vs) (length cs)
+             && Nat.eqb (length pfs) (length cs))
+    then Err EIncorrectInputLength else
     do a <- batch_loop cs zs vs pfs tape
               {| b_total_c := 0; b_total_w := 0; b_gm := 0; b_ggm := 0; b_rand := 1; b_draws := O |};
     Ok (feqb (batch_residual vk a) 0, b_draws a).
